@@ -246,6 +246,10 @@ pub use bwk::*;
 
 mod time;
 
+/// verification seams (hash-order, virtual clock, work tick); inert unless driven
+#[cfg(feature = "verif-hooks")]
+pub mod verif_hooks;
+
 /// Procedural macros to construct Datalog policies
 #[cfg(feature = "datalog-macro")]
 #[cfg_attr(feature = "docsrs", doc(cfg(feature = "datalog-macro")))]
